@@ -42,6 +42,62 @@ def _apps(fs):
     return out
 
 
+def _mods(fs):
+    """(x, t) for every x % pow2(t) occurring in fs"""
+    seen, out, keys = set(), [], set()
+    stack = list(fs)
+    while stack:
+        e = stack.pop()
+        if e.get_id() in seen:
+            continue
+        seen.add(e.get_id())
+        if z3.is_app(e):
+            if e.decl().kind() == z3.Z3_OP_MOD:
+                x, p = e.arg(0), e.arg(1)
+                if z3.is_app(p) and p.decl().name() == 'pow2':
+                    k = (x.get_id(), p.arg(0).get_id())
+                    if k not in keys:
+                        keys.add(k)
+                        out.append((x, p.arg(0)))
+            stack.extend(e.children())
+        elif z3.is_quantifier(e):
+            stack.append(e.body())
+    return out
+
+
+def _mults(fs, generic=False):
+    """(x, t) for every product x * pow2(t) occurring in fs (x not a numeral); with generic=True
+    the products x * y of two non-numeral, non-pow2 terms"""
+    seen, out, keys = set(), [], set()
+    stack = list(fs)
+    while stack:
+        e = stack.pop()
+        if e.get_id() in seen:
+            continue
+        seen.add(e.get_id())
+        if z3.is_app(e):
+            if generic and e.decl().kind() == z3.Z3_OP_MUL and e.num_args() == 2:
+                x, y = e.arg(0), e.arg(1)
+                isp = lambda q: z3.is_app(q) and q.decl().name() == 'pow2'      # noqa: E731
+                if not z3.is_int_value(x) and not z3.is_int_value(y) and not isp(x) and not isp(y):
+                    k = (x.get_id(), y.get_id())
+                    if k not in keys:
+                        keys.add(k)
+                        out.append((x, y))
+            elif not generic and e.decl().kind() == z3.Z3_OP_MUL and e.num_args() == 2:
+                for x, p in ((e.arg(0), e.arg(1)), (e.arg(1), e.arg(0))):
+                    if z3.is_app(p) and p.decl().name() == 'pow2' and not z3.is_int_value(x) and \
+                            not (z3.is_app(x) and x.decl().name() == 'pow2'):
+                        k = (x.get_id(), p.arg(0).get_id())
+                        if k not in keys:
+                            keys.add(k)
+                            out.append((x, p.arg(0)))
+            stack.extend(e.children())
+        elif z3.is_quantifier(e):
+            stack.append(e.body())
+    return out
+
+
 def ground_axioms(formulas, depth=1):
     """Ground instances of the pow2 / bit-op lemmas for the terms occurring in `formulas`."""
     ax = []
@@ -49,6 +105,7 @@ def ground_axioms(formulas, depth=1):
     pterms = {}
     for e in apps['pow2']:
         pterms[e.arg(0).get_id()] = e.arg(0)
+    orig = list(pterms.values())
     # one step of definitional unfolding
     frontier = list(pterms.values())
     for _ in range(depth):
@@ -61,6 +118,14 @@ def ground_axioms(formulas, depth=1):
             ax.append(z3.Implies(t >= 1, pow2(t) == 2 * pow2(tm)))
         frontier = new
     ts = list(pterms.values())
+    # syntactically different but equal arguments (bw - 0, 0 + bw, ...) denote the same power
+    canon = {}
+    for t in ts:
+        k = z3.simplify(t, sort_sums=True).get_id()
+        if k in canon:
+            ax.append(pow2(t) == pow2(canon[k]))
+        else:
+            canon[k] = t
     for t in ts:
         ax.append(pow2(t) >= 1)
         ax.append(z3.Implies(t == 0, pow2(t) == 1))
@@ -74,6 +139,38 @@ def ground_axioms(formulas, depth=1):
                 ax.append(z3.Implies(z3.And(b >= 0, b <= a), pow2(b) <= pow2(a)))
                 ax.append(z3.Implies(z3.And(a >= 0, a < b), 2 * pow2(a) <= pow2(b)))
                 ax.append(z3.Implies(z3.And(b >= 0, b < a), 2 * pow2(b) <= pow2(a)))
+    if len(orig) <= 24:
+        # pow2(u + v) == pow2(u) * pow2(v) (incl. u == v) for terms of the query   [lean/PyInt.lean: pow_add]
+        byid = {}
+        for t in orig:
+            byid.setdefault(z3.simplify(t, sort_sums=True).get_id(), t)
+        for i, a in enumerate(orig):
+            for b in orig[i:]:
+                c = byid.get(z3.simplify(a + b, sort_sums=True).get_id())
+                if c is not None and c.get_id() not in (a.get_id(), b.get_id()):
+                    ax.append(z3.Implies(z3.And(a >= 0, b >= 0), pow2(c) == pow2(a) * pow2(b)))
+    # x % pow2(t): range, and identity on [0, pow2(t))
+    for (x, t) in _mods(formulas):
+        ax.append(z3.And(x % pow2(t) >= 0, x % pow2(t) < pow2(t)))
+        ax.append(z3.Implies(z3.And(x >= 0, x < pow2(t)), x % pow2(t) == x))
+    # x * y with 0 <= x < pow2(u), 0 <= y < pow2(v):  x*y <= (pow2(u)-1)*(pow2(v)-1)
+    gm = _mults(formulas, generic=True)
+    if len(gm) * len(orig) * len(orig) <= 900:
+        for (x, y) in gm:
+            ax.append(z3.Implies(z3.And(x >= 0, y >= 0), x * y >= 0))
+            for u in orig:
+                for v in orig:
+                    ax.append(z3.Implies(z3.And(x >= 0, x < pow2(u), y >= 0, y < pow2(v)),
+                                         x * y + pow2(u) + pow2(v) <= pow2(u) * pow2(v) + 1))
+    # x * pow2(t) with 0 <= x < pow2(u):  x*pow2(t) + pow2(t) <= pow2(u)*pow2(t)   (scaling an
+    # inequality by a positive factor; the products are opaque monomials for the linear solver)
+    mults = _mults(formulas)
+    if len(mults) * len(orig) <= 400:
+        for (x, t) in mults:
+            ax.append(z3.Implies(x >= 0, x * pow2(t) >= 0))
+            for u in orig:
+                ax.append(z3.Implies(z3.And(x >= 0, x < pow2(u), t >= 0, u >= 0),
+                                     x * pow2(t) + pow2(t) <= pow2(u) * pow2(t)))
     for nm, f in (('band', band), ('bor', bor), ('bxor', bxor)):
         for e in apps[nm]:
             a, b = e.arg(0), e.arg(1)
@@ -111,6 +208,9 @@ def ground_axioms(formulas, depth=1):
                                      z3.And(e >= 0, e < pow2(t))))
     for e in apps['bitlen']:
         x = e.arg(0)
+        xs = z3.simplify(x)
+        if z3.is_int_value(xs) and xs.as_long() >= 0:
+            ax.append(e == xs.as_long().bit_length())
         ax.append(z3.Implies(x == 0, e == 0))
         ax.append(z3.Implies(x > 0, z3.And(e >= 1, pow2(e - 1) <= x, x < pow2(e))))
         ax.append(pow2(e) >= 1)
